@@ -177,7 +177,7 @@ impl Prop for C09 {
         sentinel_core::system_metric::verif_set_readings(0.0, 0.0, 0);
         cov.sim_ns += w.sim_ns;
         cov.ops += w.ops;
-        RunResult { trace_hash: tr.hash(), violation: viol }
+        RunResult::new(tr.hash(), viol)
     }
 
     fn shrink(&self, scenario: &Value) -> Vec<Value> {
